@@ -240,6 +240,8 @@ def _get_array_check_statistics(
     """Get check statistics from an array-like object."""
     if x.isna().all():
         return None
+    # min/max of an object array cannot skip null values
+    x = x.dropna()
     if dtypes.is_datetime(data_type):
         check_stats = {
             "greater_than_or_equal_to": x.min(),
